@@ -50,6 +50,7 @@ const vpNS = "ns"
 type vpKeyMutex struct {
 	w    *vpWorld
 	held map[string]int // key -> logical thread holding it
+	pods bool           // this is the pod lock pool: every key is <namespace>_<pod name>
 }
 
 func (m *vpKeyMutex) LockKey(id string) {
@@ -59,6 +60,11 @@ func (m *vpKeyMutex) LockKey(id string) {
 	me := 1
 	if m.w != nil {
 		me = m.w.thread
+	}
+	if m.pods && !strings.HasPrefix(id, vpNS+"_") && !strings.HasSuffix(id, "_") { // (keys without a pod name: releases of an app's / pool's reserve)
+		// every operation on a pod has to take the same key for it, <namespace>_<name> (all pods of the world live in
+		// namespace vpNS): another spelling excludes nobody
+		verifAssert("C18/pod-lock-key-form?", false, "an operation locks the pod lock pool with the key "+id+", which is not <namespace>_<pod name>: it does not exclude the other operations on that pod")
 	}
 	for other, owner := range m.held {
 		// the real pools are hashed key mutexes (500000 buckets): two different keys of ONE pool may share a bucket, so
@@ -516,7 +522,7 @@ func vpNewWorld(topo int, withProvider bool) *vpWorld {
 		pools: map[string]*v1alpha1.Pool{}, tapps: map[string]int{},
 		lPods: map[string]*corev1.Pod{}, lDeployments: map[string]*appsv1.Deployment{}, lStatefulset: map[string]*appsv1.StatefulSet{},
 		lPools: map[string]*v1alpha1.Pool{},
-		podLocks: &vpKeyMutex{}, dpLocks: &vpKeyMutex{}, multiIPKeys: map[string]bool{}}
+		podLocks: &vpKeyMutex{pods: true}, dpLocks: &vpKeyMutex{}, multiIPKeys: map[string]bool{}}
 	_, w.ips, _ = floatingip.VTopology(topo)
 	w.store.Tick = w.tick
 	w.store.After = func(kind, name string) { w.windowPoint() }
